@@ -37,7 +37,7 @@ def key_bytes(k):
 small_key = st.builds(lambda p, s: (p << 16) | s, st.sampled_from(PREFIXES),
                       st.sampled_from(SUFFIXES))
 any_key = st.one_of(small_key, small_key, small_key, st.integers(0, 2 ** 64 - 1))
-value = st.one_of(st.integers(0, 2 ** 48 - 1), st.sampled_from([0, 1, 2 ** 48 - 1, 2 ** 32]))
+value = st.one_of(st.integers(0, 2 ** 48 - 1), st.sampled_from([0, 0, 1, 2 ** 48 - 1, 2 ** 32]))
 QUERIES = ['get', 'getitem', 'in', 'has_key', 'minKey', 'maxKey', 'minKey0', 'maxKey0',
            'len', 'keys', 'items', 'values', 'iter']
 
@@ -215,7 +215,18 @@ def execute(case):
     if got != sorted(model.items()) or len(idx) != len(model):
         out.fail((PROPERTY, 'final-scan', 'wrong-result'),
                  'items %r expected %r' % (got[:10], sorted(model.items())[:10]))
-    # internal validity: no empty bucket is left behind (minKey/maxKey rely on it)
+    # point queries for every key present (whatever its position, 0 included) and its neighbours
+    for k in sorted(model):
+        for q in (k, k ^ 1, (k + 0x10000) & (2 ** 64 - 1)):
+            kb = key_bytes(q)
+            ans = (kb in idx, bool(idx.has_key(kb)), idx.get(kb), idx.get(kb, 'dflt'))
+            exp = (q in model, q in model, model.get(q), model.get(q, 'dflt'))
+            if ans != exp:
+                out.fail((PROPERTY, 'final-point-queries', 'wrong-result'),
+                         'key %#x (position %r): (in, has_key, get, get-with-default) -> %r expected %r' % (q, model.get(q), ans, exp))
+                break
+        if out.failures:
+            break
     out.nt_keys = nt
     if len(model) >= 3:
         out.label('index>=3')
